@@ -7,7 +7,7 @@
 (* says the results and the state must be in exp, the logged values in     *)
 (* obs, and the invariant Conforms compares them.  Nothing is inferred     *)
 (* from the plan; nothing but arguments is taken from the trace.           *)
-EXTENDS ApiSponge, ApiAead, ApiIsap, Conc, Json, IOUtils, TLC
+EXTENDS ApiSponge, ApiAead, ApiIsap, ApiKdf, Conc, Json, IOUtils, TLC
 
 T == ndJsonDeserialize(IOEnv.TRACE)
 
@@ -216,7 +216,38 @@ TrNonceSetCounter == IsEv("nonce.set_counter") /\ LET ev == T[l] IN
 AeadIncNext == TrIncInit \/ TrIncStart \/ TrIncEnc \/ TrIncDec \/ TrIncEncFin \/ TrIncDecFin \/ TrIncFree
                \/ TrNonceInc \/ TrNonceSetCounter
 
-KdfNext == FALSE
+(* C05/C07: HKDF objects and one-shots, PBKDF2                              *)
+HmFor(kind) == IF kind \in {"hkdfa"} THEN "xofa" ELSE "xof"
+HkSt(o)    == <<o.prk, o.out, o.counter, o.posn>>
+HkStEv(ev) == <<ev.prk, ev.sout, ev.counter, ev.posn>>
+HkSet(ev, o) == Put(ev.obj, [kind |-> ev.kind, prk |-> o.prk, out |-> o.out, counter |-> o.counter, posn |-> o.posn])
+
+TrHkdfExtract == IsEv("hkdf.extract") /\ LET ev == T[l]  v == HmFor(ev.kind)
+      o == HkdfObjExtract(LAMBDA k, d : Hmac(v, k, d), ev.key, ev.salt) IN
+  \* the out field is not meaningful before the first block: compare prk, counter, posn
+  Step(HkSet(ev, [o EXCEPT !.out = ev.sout]), <<o.prk, o.counter, o.posn>>, <<ev.prk, ev.counter, ev.posn>>)
+TrHkdfExpand == IsEv("hkdf.expand") /\ LET ev == T[l]  v == HmFor(ev.kind)
+      r == HkdfObjExpand(LAMBDA k, d : Hmac(v, k, d), objs[ev.obj], ev.info, ev.n) IN
+  Step(HkSet(ev, r.o), <<HkSt(r.o), r.ret, r.out, 1>>, <<HkStEv(ev), ev.ret, ev.out, ev.guard>>)
+\* positioning through the documented public fields: the object is whatever the fields now say
+TrHkdfPoke == IsEv("hkdf.poke") /\ LET ev == T[l] IN
+  Step(HkSet(ev, [prk |-> ev.prk, out |-> ev.sout, counter |-> ev.counter, posn |-> ev.posn]), <<>>, <<>>)
+TrHkdfFree == IsEv("hkdf.free") /\ LET ev == T[l] IN Step(Del(ev.obj), <<>>, <<>>)
+
+XorFold(s) == FoldLeft(LAMBDA acc, i : [acc EXCEPT ![((i - 1) % 32) + 1] = BX(@, s[i])], Zeros(32), Idx(Len(s)))
+TrOsHkdf == IsEv("os.hkdf") /\ LET ev == T[l]  v == HmFor(ev.kind)
+      r == Hkdf(LAMBDA k, d : Hmac(v, k, d), ev.key, ev.salt, ev.info, ev.n) IN
+  IF r.ret = -1 THEN Step(objs, <<-1, 1, 1>>, <<ev.ret, ev.guard, ev.untouched>>)   \* refused: error and no output
+  ELSE IF ev.n <= 600 THEN Step(objs, <<0, r.out, 1>>, <<ev.ret, ev.out, ev.guard>>)
+  ELSE Step(objs, <<0, Slice(r.out, 0, 64), Slice(r.out, ev.n - 64, 64), XorFold(r.out), 1>>,
+                  <<ev.ret, ev.head, ev.tail, ev.fold, ev.guard>>)
+
+PbPrf(kind, pw, x) == IF kind = "pbkdf2" THEN CXof("xof", Bytes(<<80, 66, 75, 68, 70, 50>>), pw, SzOf(32), x, 32)
+                      ELSE Hmac("xof", pw, x)
+TrOsPbkdf2 == IsEv("os.pbkdf2") /\ LET ev == T[l] IN
+  Step(objs, <<Pbkdf2(LAMBDA p, x : PbPrf(ev.kind, p, x), ev.pw, ev.salt, ev.count, ev.n), 1>>, <<ev.out, ev.guard>>)
+
+KdfNext == TrHkdfExtract \/ TrHkdfExpand \/ TrHkdfPoke \/ TrHkdfFree \/ TrOsHkdf \/ TrOsPbkdf2
 IsapNext == FALSE
 PrngNext == FALSE
 MiscNext == FALSE
